@@ -274,10 +274,27 @@ func allocFactor(s *schema.Schema) int64 {
 		return f
 	}
 	best := int64(8)
-	var walk func(t schema.Type)
-	walk = func(t schema.Type) {
+	maxEntry, maxDepth := int64(8), 0
+	var depthOf func(t schema.Type) int
+	depthOf = func(t schema.Type) int {
 		switch {
 		case t.Array != nil:
+			return 1 + depthOf(*t.Array)
+		case t.MapV != nil:
+			return 1 + depthOf(*t.MapV)
+		}
+		return 0
+	}
+	var walk func(t schema.Type)
+	walk = func(t schema.Type) {
+		if d := depthOf(t); d > maxDepth {
+			maxDepth = d
+		}
+		switch {
+		case t.Array != nil:
+			if g := goSize(s, *t.Array, 0); g > maxEntry {
+				maxEntry = g
+			}
 			w := int64(s.MinWire(*t.Array))
 			if w < 1 {
 				w = 1
@@ -292,6 +309,9 @@ func allocFactor(s *schema.Schema) int64 {
 				w = 1
 			}
 			g := goSize(s, schema.Type{Prim: t.MapK}, 0) + goSize(s, *t.MapV, 0) + 16
+			if g > maxEntry {
+				maxEntry = g
+			}
 			if r := (g + w - 1) / w; r > best {
 				best = r
 			}
@@ -303,8 +323,15 @@ func allocFactor(s *schema.Schema) int64 {
 			walk(f.Type)
 		}
 	}
-	factorCache[s] = 2 * best
-	return 2 * best
+	f := 2 * best
+	if g := 2 * maxEntry * int64(maxDepth+1); g > f {
+		f = g
+	}
+	if f < 64 {
+		f = 64
+	}
+	factorCache[s] = f
+	return f
 }
 
 func budgetsFor(s *schema.Schema, wireLen int) (alloc, steps int64) {
@@ -351,6 +378,8 @@ func wrapWriter(kind string, s *simnet.Sink) io.Writer {
 	switch kind {
 	case "errorwriter":
 		return iohelp.NewErrorWriter(s)
+	case "fat":
+		return simnet.FatSink{Sink: s}
 	}
 	return struct{ io.Writer }{s}
 }
@@ -427,6 +456,9 @@ func wrapReader(kind string, l *simnet.Link) readerWrap {
 	case "bufio":
 		br := bufio.NewReaderSize(struct{ io.Reader }{l}, 16)
 		return readerWrap{r: br, buffered: br.Buffered}
+	case "fat":
+		// every optional capability at once: Seeker, ReaderAt, WriterTo, ByteScanner
+		return readerWrap{r: simnet.NewFatLink(l)}
 	}
 	return readerWrap{r: struct{ io.Reader }{l}}
 }
